@@ -108,6 +108,22 @@ func h3pairs(xs [][2]int64) string {
 	return u.List(s)
 }
 
+// h3hex prints a byte string as a Coq string term; long strings are split into chunks joined
+// by String.append, because a very long literal overflows coqc's stack.
+func h3hex(b []byte) string {
+	const chunk = 1024
+	if len(b) <= chunk {
+		return u.Hex(b)
+	}
+	var parts []string
+	for len(b) > 0 {
+		n := min(chunk, len(b))
+		parts = append(parts, u.Hex(b[:n]))
+		b = b[n:]
+	}
+	return "(" + strings.Join(parts, " ++ ") + ")"
+}
+
 func h3trunc(b []byte, n int) string {
 	if len(b) > n {
 		return fmt.Sprintf("%x...(%d bytes)", b[:n], len(b))
@@ -431,7 +447,7 @@ func runH3Frames(w *bufio.Writer, seed uint64, n int, _ []string) {
 				}
 			}
 		}
-		fmt.Fprintf(w, "CASE %d %s\n", nt, u.App("FrameCase", u.Hex(data), h3ints(sched), u.Pair(u.Z(fc), u.Z(fa)), u.B(fw),
+		fmt.Fprintf(w, "CASE %d %s\n", nt, u.App("FrameCase", h3hex(data), h3ints(sched), u.Pair(u.Z(fc), u.Z(fa)), u.B(fw),
 			u.Z(int64(nmax)), u.List(rs), u.Opt(closed, u.ZU(closeCode)), u.Z(int64(left))))
 		if samples < 3 && len(data) < 60 && len(res) > 1 {
 			samples++
@@ -671,7 +687,7 @@ func runH3Stream(w *bufio.Writer, seed uint64, n int, _ []string) {
 				bl := nextBuf()
 				out, c, a := rig.Read(bl)
 				opsS = append(opsS, u.App("ORead", u.Z(int64(bl))))
-				resS = append(resS, u.App("RRead", u.Hex(out), u.Pair(u.Z(c), u.Z(a))))
+				resS = append(resS, u.App("RRead", h3hex(out), u.Pair(u.Z(c), u.Z(a))))
 				if firstErrCls < 0 {
 					got = append(got, out...)
 				} else if len(out) > 0 && (firstErrCls == http3.VerifH3SErrEOF || firstErrCls == http3.VerifH3SErrTooMuchData) {
@@ -820,7 +836,7 @@ func runH3Stream(w *bufio.Writer, seed uint64, n int, _ []string) {
 		if len(got) > 0 || (firstErrCls > 1) || len(rig.Trailers) > 0 || len(written) > 0 {
 			nt = 1
 		}
-		fmt.Fprintf(w, "CASE %d %s\n", nt, u.App("StreamCase", u.Hex(data), h3ints(sched), u.Pair(u.Z(fc), u.Z(fa)), u.B(fw),
+		fmt.Fprintf(w, "CASE %d %s\n", nt, u.App("StreamCase", h3hex(data), h3ints(sched), u.Pair(u.Z(fc), u.Z(fa)), u.B(fw),
 			u.Z(mode), u.ZU(maxHdr), u.Z(int64(wfail)), u.List(opsS), u.List(resS), h3pairs(script.Cancels), u.Opt(ccok, u.ZU(cc)),
 			u.List(tr), u.List(wr), u.ZU(rig.BytesRemainingInFrame()), u.Z(int64(len(script.Data)))))
 		dist[scen+"/"+clScen]++
